@@ -651,6 +651,19 @@ theorem gen_scan_ld_instance {C : Type} :
    gen_scan_ld_antisym (.cons (Leaves.affine_lawful _ (by norm_num)) (LogDet.affine_ld_antisym _)
       (.cons (Leaves.affine_lawful _ (by norm_num)) (LogDet.affine_ld_antisym _) (.nil _)))⟩
 
+/-- **log-det of the generated `Vmap`**: both `…_and_log_det` methods return `jnp.sum` of the per-call log-dets — call `i` being the
+child method on (slice `i` of the bijection or the shared one, slice `i` of the input along axis 0, slice `i` of the condition or
+the shared one) — i.e. the log-det of the block-diagonal Jacobian; every `in_axes`, `in_axes_condition`, axis size. -/
+theorem gen_vmap_ld {κ : Type} [Inhabited κ] (v : JaxTr.Vmap κ ℝ) (x c : Arr κ) :
+    (Vmap.transform_and_log_det v x c).2
+      = JaxTr.jnpSum (JaxTr.zipWith3 (fun b xi ci => (b.fwdLd xi ci).2) (JaxTr.mapModule v.in_axes.1 v.bijection v.axis_size)
+          (JaxTr.unstack x v.axis_size ((v.in_axes.2.1 : Nat) : Int)) (JaxTr.mapArg v.in_axes.2.2 c v.axis_size))
+    ∧ (Vmap.inverse_and_log_det v x c).2
+      = JaxTr.jnpSum (JaxTr.zipWith3 (fun b xi ci => (b.invLd xi ci).2) (JaxTr.mapModule v.in_axes.1 v.bijection v.axis_size)
+          (JaxTr.unstack x v.axis_size ((v.in_axes.2.1 : Nat) : Int)) (JaxTr.mapArg v.in_axes.2.2 c v.axis_size)) := by
+  have h := JaxTrProofs.vmap_slicewise v x c
+  exact ⟨by rw [h.2.2.1], by rw [h.2.2.2]⟩
+
 end JaxTransformsGen
 
 
